@@ -1206,26 +1206,28 @@ class TaskScenario(ScenarioData):
         if not alternative_resources:
             return primary_resources
 
-        # If no primaries, use alternatives
-        if not primary_resources:
-            return alternative_resources
-
         # Smart routing: compare completion times
-        # Calculate when each path would complete the task
-
-        primary_end = self._estimateCompletionTime(primary_resources, effort)
-        alternative_end = self._estimateCompletionTime(alternative_resources, effort)
+        # Every alternative is a candidate of its own (exactly one of them does the work); the
+        # primaries are the candidate to beat, or the first alternative if there are none
+        if primary_resources:
+            best = primary_resources
+            others = alternative_resources
+        else:
+            best = alternative_resources[:1]
+            others = alternative_resources[1:]
+        best_end = self._estimateCompletionTime(best, effort)
 
         # Choose the path that finishes earlier
-        if alternative_end is not None and (primary_end is None or alternative_end < primary_end):
-            # Store which resource was selected for reporting
-            if not hasattr(self, "_selectedAlternative"):
-                self._selectedAlternative = True
-            return alternative_resources
-        else:
-            if not hasattr(self, "_selectedAlternative"):
-                self._selectedAlternative = False
-            return primary_resources
+        for alternative in others:
+            alternative_end = self._estimateCompletionTime([alternative], effort)
+            if alternative_end is not None and (best_end is None or alternative_end < best_end):
+                best = [alternative]
+                best_end = alternative_end
+
+        # Store which resource was selected for reporting
+        if not hasattr(self, "_selectedAlternative"):
+            self._selectedAlternative = best is not primary_resources
+        return best
 
     def _estimateCompletionTime(self, resources: list[Any], effort: float) -> Optional[datetime]:
         """
